@@ -741,6 +741,10 @@ func (h *hist) stepPoll() error {
 		h.rebuilt = false
 		if h.locked {
 			h.lockedPoll = line
+			// the reader that holds SHARED goes on reading after the poll was staged: every page, through a
+			// cold cache (its own snapshot, whatever that shows — not compared here). The pages it caches
+			// now must not survive the publication of the staged index at unlock (seed C18d)
+			h.readAllCold()
 			return nil
 		}
 		return h.afterCheck(h.check("poll", line, time.Time{}))
@@ -755,6 +759,21 @@ func (h *hist) stepPoll() error {
 	}
 	line, _ := h.stepCase(L(I(2), filesSx(l0), filesSx(l1)), "poll", func() error { return h.vf.PollOnce(h.ctx) })
 	return h.afterCheck(h.check("tt-poll", line, h.target))
+}
+
+var lockedReads int
+
+func (h *hist) readAllCold() {
+	szBytes, _ := h.sizePages()
+	h.vf.PurgePageCache()
+	buf := make([]byte, h.ps)
+	for pg := 1; int64(pg)*int64(h.ps) <= szBytes; pg++ {
+		if uint32(pg) == ltx.LockPgno(uint32(h.ps)) {
+			continue
+		}
+		_, _ = h.vf.ReadAt(buf, int64(pg-1)*int64(h.ps))
+	}
+	lockedReads++
 }
 
 func (h *hist) stepSetTarget(k int) error {
@@ -965,6 +984,7 @@ func (h *hist) run(op string) (err error) {
 		if err != nil {
 			return err
 		}
+		h.readAllCold() // the reader goes on reading its snapshot after the poll was staged
 		h.lockCase(1, sqlite3vfs.LockNone)
 		return h.afterCheck(h.check("lpoll", line, time.Time{}))
 	case "TT": // time travel to just after the k-th newest L0 file, then back
@@ -1035,6 +1055,8 @@ var directed = []struct {
 	{"hyd-poll-shrink", 1024, "I 60 900;S;OPEN;U 0 3;S;POLL;D 0 2;S;POLL;VAC;S;POLL;I 5 900;S;POLL"},
 	{"hyd-compaction-of-source-files", 1024, "I 20 900;S;C1;U 0 2;S;OPEN;C1;R0;POLL;U 1 2;S;C1;C2;R0;POLL;U 0 3;S;POLL"},
 	{"locked-polls", 1024, "I 30 300;S;OPEN;I 30 300;S;LPOLL;D 0 2;S;VAC;S;LPOLL;I 3 30;S;LPOLL"},
+	{"locked-reader-reads-after-staged-update", 1024, "I 20 900;S;I 20 900;S;OPEN;U 1 2;S;LK;PL;UL;POLL;U 0 3;S;LPOLL;POLL"},
+	{"locked-reader-reads-after-staged-replace", 1024, "I 60 900;S;OPEN;D 1 2;VAC;S;LK;PL;UL;POLL;U 0 2;S;LK;PL;UL"},
 	{"time-travel", 1024, "I 20 300;S;I 20 300;S;OPEN;D 0 2;S;V 2;S;I 4 40;S;POLL;TT 0;TT 1;TT 2;TT 3"},
 }
 
@@ -1218,7 +1240,7 @@ func main() {
 		os.Exit(2)
 	}
 	st := cw.Stats()
-	st.Extra = map[string]any{"points": e.points, "errors": e.errs}
+	st.Extra = map[string]any{"points": e.points, "errors": e.errs, "locked_reads_after_staged_poll": lockedReads}
 	if err := WriteJSON(filepath.Join(*out, "stats.json"), st); err != nil {
 		fmt.Fprintln(os.Stderr, err)
 		os.Exit(2)
